@@ -245,6 +245,20 @@ pub fn c05(tier: Tier, replay: Option<String>) -> i32 {
 
 // ---------------------------------------------------------------------------------------------
 
+/// Packets the codec refuses part-way through (some of their bytes are already produced when the
+/// out-of-range value is met): the connection reports the refusal and nothing of them reaches the wire.
+pub fn refused_packets() -> Vec<(&'static str, Packet)> {
+    let mut hs: Vec<PlayerHandicap> = (0..20u8).map(|k| PlayerHandicap { plid: insim::identifiers::PlayerId(k + 1), h_mass: 10, h_tres: 5, ..Default::default() }).collect();
+    if let Some(l) = hs.last_mut() { l.h_mass = 250; }
+    let mut hcp = Hcp::default();
+    if let Some(l) = hcp.info.last_mut() { l.h_tres = 200; }
+    vec![
+        ("refused-isi-70s", Packet::Isi(Isi { interval: std::time::Duration::from_secs(70), iname: "x".repeat(16), admin: "y".repeat(16), ..Default::default() })),
+        ("refused-plh", Packet::Plh(Plh { hcaps: hs, ..Default::default() })),
+        ("refused-hcp", Packet::Hcp(hcp)),
+    ]
+}
+
 fn c06_packets() -> Vec<(&'static str, Packet)> {
     let mci = Packet::Mci(Mci { reqi: RequestId(0), info: (0..8).map(|i| CompCar { node: i, lap: 1, ..Default::default() }).collect() });
     vec![
@@ -285,7 +299,27 @@ pub fn c06_instances(tier: Tier) -> Vec<Instance> {
     }
     // writes issued while a keep-alive reply is still half sent (the read that owed it was dropped)
     for c in [true, false] {
-        out.extend(drop_write_instances(c, "after-dropped-read"));
+        out.extend(drop_write_instances(c, "after-dropped-read", tier));
+    }
+    // a packet the codec refuses among the writes: its write() reports the refusal, the wire never hears of it,
+    // and the packets around it go out whole
+    for c in [true, false] {
+        let mut alpha: Vec<(&str, Packet)> = vec![pk[0].clone(), pk[3].clone()];
+        alpha.extend(refused_packets());
+        for seq in sequences(&alpha, 3) {
+            if !seq.iter().any(|x| x.0.starts_with("refused")) || seq.len() < 2 { continue; }
+            let label: Vec<&str> = seq.iter().map(|x| x.0).collect();
+            let ps: Vec<Packet> = seq.iter().map(|x| x.1.clone()).collect();
+            for imp in [Impl::Blocking, Impl::Tokio] {
+                let mut i = Instance::new(&format!("write-refused#{}#{}#{}", if c { "compressed" } else { "uncompressed" }, label.join("+"), imp_name(imp)), imp, c, vec![]);
+                i.program = Program::Writes(ps.clone());
+                i.script_writes = true;
+                i.allow_eof = false;
+                i.accept_few = true;
+                i.pending_budget = 1;
+                out.push(i);
+            }
+        }
     }
     // a long session of writes: 100 (quick) / 300 (thorough) packets of mixed sizes on one connection,
     // every call accepting one byte or everything, one storm of not-ready answers anywhere
@@ -371,6 +405,29 @@ pub fn c07_instances(tier: Tier) -> Vec<Instance> {
                 i.allow_eof = false;
                 out.push(i);
             }
+            // (b1) the application's write or handshake was refused by the codec before these reads: the replies are
+            // whole and nothing of the refused packet rides along
+            for (rname, rp) in refused_packets() {
+                for via_handshake in [false, true] {
+                    let Packet::Isi(isi) = &rp else { if via_handshake { continue; } else {
+                        let mut i = Instance::new(&format!("after-refused#{cname}#{rname}#{}", imp_name(imp)), imp, c, vec![f_keepalive(c), f_small(c), f_keepalive(c)]);
+                        i.chunks = Chunks::Boundary;
+                        i.allow_eof = false;
+                        i.script_writes = true;
+                        i.accept_few = true;
+                        i.preamble = vec![rp.clone(), Packet::Tiny(Tiny { reqi: RequestId(5), subt: TinyType::Ping }), rp.clone()];
+                        out.push(i);
+                        continue;
+                    } };
+                    let mut i = Instance::new(&format!("after-refused#{cname}#{rname}-{}#{}", if via_handshake { "handshake" } else { "write" }, imp_name(imp)), imp, c, vec![f_keepalive(c), f_small(c), f_keepalive(c)]);
+                    i.chunks = Chunks::Boundary;
+                    i.allow_eof = false;
+                    i.script_writes = true;
+                    i.accept_few = true;
+                    if via_handshake { i.handshake = Some(isi.clone()); } else { i.preamble = vec![rp.clone()]; }
+                    out.push(i);
+                }
+            }
             // (b2) the version gate and the keep-alive reply do not disturb each other
             let valpha: Vec<(&str, Vec<u8>)> = vec![("ka", f_keepalive(c)), ("ver9", f_ver(c, 9)), ("ver8", f_ver(c, 8)), ("small", f_small(c))];
             for seq in sequences(&valpha, 3) {
@@ -411,7 +468,7 @@ pub fn c07_instances(tier: Tier) -> Vec<Instance> {
             }
         }
         // (c) the caller's own reads and writes dropped around a keep-alive
-        out.extend(drop_write_instances(c, "dropw"));
+        out.extend(drop_write_instances(c, "dropw", tier));
         // (d) "every history": 300 keep-alives, bare and with other frames between them, delivered as
         // much at a time as the connection takes or frame by frame
         for imp in [Impl::Blocking, Impl::Tokio] {
@@ -676,23 +733,47 @@ pub fn c09(tier: Tier, replay: Option<String>) -> i32 {
 /// The caller gives up on a read (select! against a timer), writes, and may give up on that write as
 /// well: keep-alive replies must reach the wire whole and exactly once whatever happens to the
 /// caller's own packet.  The packet written is a SMALL (first byte differs from a reply's).
-fn drop_write_instances(c: bool, family: &str) -> Vec<Instance> {
+fn drop_write_instances(c: bool, family: &str, tier: Tier) -> Vec<Instance> {
     let mut out = vec![];
     let cname = if c { "compressed" } else { "uncompressed" };
     let alpha: Vec<(&str, Vec<u8>)> = vec![("ka", f_keepalive(c)), ("small", f_small(c))];
-    let users: Vec<(&str, Packet, bool)> = vec![
-        ("write", Packet::Small(Small { reqi: RequestId(7), subt: SmallType::Vta(VtnAction::End) }), false),
+    let mut users: Vec<(String, Packet, bool)> = vec![
+        ("write".to_string(), Packet::Small(Small { reqi: RequestId(7), subt: SmallType::Vta(VtnAction::End) }), false),
         // the same through handshake(): the ISI is a packet like any other as far as the wire goes
-        ("handshake", Packet::Isi(insim::insim::Isi { reqi: RequestId(1), iname: "verif".into(), ..Default::default() }), true),
+        ("handshake".to_string(), Packet::Isi(insim::insim::Isi { reqi: RequestId(1), iname: "verif".into(), ..Default::default() }), true),
         // the application answers keep-alives by hand as well: its packet is byte for byte a reply
-        ("write-a-reply", Packet::Tiny(Tiny { reqi: RequestId(0), subt: TinyType::None }), false),
+        ("write-a-reply".to_string(), Packet::Tiny(Tiny { reqi: RequestId(0), subt: TinyType::None }), false),
     ];
-    for (uname, user, via_handshake) in &users {
+    let basic = users.len();
+    // what the application writes is not special: every TINY sub-type (a Close among them) and every kind's B1 packet
+    {
+        let codec = Codec::new(mode_of(c));
+        for subt in 1..=31u8 {
+            let mut b = bytes::BytesMut::from(&f_tiny(c, 7, subt)[..]);
+            if let Ok(Ok(Some(p))) = crate::report::guard(|| codec.decode(&mut b)) {
+                if matches!(crate::report::guard(|| codec.encode(&p)), Ok(Ok(_))) { users.push((format!("write-tiny-subt{subt}"), p, false)); }
+            }
+        }
+        for k in spec::load().iter() {
+            if k.name == "TINY" { continue; }
+            let Some(f) = spec::ref_encode(k, &baseline(k, 1), c) else { continue };
+            let mut b = bytes::BytesMut::from(&f[..]);
+            if let Ok(Ok(Some(p))) = crate::report::guard(|| codec.decode(&mut b)) {
+                if matches!(crate::report::guard(|| codec.encode(&p)), Ok(Ok(_))) { users.push((format!("write-{}", k.name), p, false)); }
+            }
+        }
+    }
+    let pong_lead = if c { 1u8 } else { 4u8 };
+    for (ui, (uname, user, via_handshake)) in users.iter().enumerate() {
+    let reduced = ui >= basic && tier == Tier::Quick;
+    let lead = Codec::new(mode_of(c)).encode(user).map(|b| b[0]).unwrap_or(0);
     for seq in sequences(&alpha, 2) {
         if !seq.iter().any(|x| x.0 == "ka") { continue; }
+        if reduced && seq.len() != 1 { continue; }
         let label: Vec<&str> = seq.iter().map(|x| x.0).collect();
         let frames: Vec<Vec<u8>> = seq.iter().map(|x| x.1.clone()).collect();
         for write_at in 1..=2usize {
+            if reduced && write_at != 1 { continue; }
             let mut ops: Vec<Option<Packet>> = vec![None; 5];
             ops.insert(write_at, Some(user.clone()));
             let mut i = Instance::new(&format!("{family}#{cname}#{}-{uname}@{write_at}#tokio", label.join("+")), Impl::Tokio, c, frames.clone());
@@ -702,7 +783,8 @@ fn drop_write_instances(c: bool, family: &str) -> Vec<Instance> {
             i.allow_eof = true;
             i.cancel_budget = 2;
             // (a reply-shaped packet torn by a dropped write could not be told from a torn reply)
-            i.cancel_writes = *uname != "write-a-reply";
+            // (nor a packet whose frame starts with the byte a reply starts with: every 4-byte frame)
+            i.cancel_writes = uname != "write-a-reply" && lead != pong_lead;
             i.isi_via_handshake = *via_handshake;
             i.pending_budget = 1;
             i.slow_flush = 1;
@@ -710,7 +792,7 @@ fn drop_write_instances(c: bool, family: &str) -> Vec<Instance> {
             v.label = format!("{}#vectored", i.label);
             v.vectored = true;
             out.push(i);
-            out.push(v);
+            if !reduced { out.push(v); }
         }
     }
     }
@@ -746,7 +828,7 @@ pub fn c19_instances(tier: Tier) -> Vec<Instance> {
             let n = if tier == Tier::Thorough { 64 } else { 30 };
             (0..n).map(|i| if i % 3 == 0 { f_big(c, 252, 200) } else if i % 3 == 1 { f_mci(c, 8) } else { f_keepalive(c) }).collect()
         };
-        out.extend(drop_write_instances(c, "drop-write"));
+        out.extend(drop_write_instances(c, "drop-write", tier));
         // the version gate is one more thing a read may be busy with when it is dropped
         let galpha: Vec<(&str, Vec<u8>)> = vec![("ver8", f_ver(c, 8)), ("ver9", f_ver(c, 9)), ("ka", f_keepalive(c)), ("small", f_small(c))];
         for seq in sequences(&galpha, 2) {
